@@ -25,9 +25,33 @@ def loader_prop(classes, clauses, **kw):
 
 PROPS = {
     "C13": loader_prop(["LOAD"], ["C13"],
-                       explanation="C13: convert is compared with the declarative specification ConvertSpec.expand (hand-written US-QWERTY keyboard) on every generated layout (clause C13.expand on the real output); table theorems by vm_compute on the regenerated tables; see coq/Properties/C13.v for what is proved about all layouts"),
+                       explanation=("C13: PROVED for every fancy layout f (parsed or not): Convert.convert f = ConvertSpec.expand f as outcomes Ok/Err/Panic "
+                                    "(C13_convert_refines_spec; also C13_convert_core_refines_spec for the part before the duplicate-key rejection), where expand is the "
+                                    "declarative expansion over the hand-written US-QWERTY keyboard of SpecTables.v (one mapping per non-space letter and per combination of "
+                                    "alias definitions, first slot fastest; Shift per the keyboard, right Shift if the trigger contains it; output-side aliases replaced by the "
+                                    "trigger-side choice; source order; repeat-only entries set the repeat of mappings with the same trigger set or add an identity mapping, "
+                                    "decision 9.2). Table theorems by vm_compute on the regenerated tables (C13_char_table_is_usqwerty for every scalar, C13_rows). "
+                                    "C13_written_out: if a file loads to L, the file listing L's mappings key by key (serde form) loads to L. Spellings: C13_spellings_singleton "
+                                    "(bare value = one-element array for from / to / row to / Special keys / absorbing), C13_spellings (for every JSON value, unwrapping all such "
+                                    "arrays changes neither parse_layout nor load), C13_spellings_names (row names depend only on the upper-case form, repeat names on the "
+                                    "lower-case form; the five row names and normal/disabled in lower, capitalised and upper case by computation). "
+                                    "On every run the real convert is compared with the extracted expand on every generated layout (clause C13.expand)")),
     "C14": loader_prop(["LOAD"], ["C14"],
-                       explanation="C14: every modelled panic site of the loader is proved unreachable and accepted layouts satisfy the mapper's constructor (coq/Properties/C14.v); the real loader, for_layout and step run under catch_unwind on every case (clauses C14.panic, C14.accepted_wf); C14_mapper_total lives in the mapper development"),
+                       explanation=("C14: PROVED C14_loader_total (for every serde_json::Value j and site, load j <> Panic site: every modelled indexing, slicing, len()-1, "
+                                    "quantities[i]-1, unwrap, from_table index and the model's loop fuel is unreachable), C14_converter_total (the same for convert on every fancy "
+                                    "layout), C14_parser_total, C14_odometer_total, and C14_accepted_is_wf (load j = Ok L -> Mapper.for_layout_ok L: triggers non-empty, no duplicate "
+                                    "key in one from/to). Mapper half (lemmas in MapperTotal.v): C14_mapper_constructor_total (for_layout_ok L <-> every trigger non-empty and from/to NoDup, i.e. "
+                                    "exactly the negation of for_layout's panic conditions) and C14_mapper_index_loops_in_range (in every mapper state and for every key the two "
+                                    "reverse index loops with remove_mapping never index active_mappings out of range; the other mapper operations are total by construction). "
+                                    "Bytes -> Value (serde_json) is trusted. On every run the real loader, for_layout and step run under catch_unwind on every case "
+                                    "(clauses C14.panic, C14.accepted_wf)")),
     "C15": loader_prop(["LOAD", "SERDE"], ["C15"],
-                       explanation="C15: round trip to_json -> parse -> convert proved for every well-formed basic layout, key names by vm_compute over the regenerated table (coq/Properties/C15.v); the real serde output and the real reload are compared on every accepted layout and on random basic layouts over all key codes (clause C15.roundtrip)"),
+                       explanation=("C15: PROVED C15_roundtrip (for every basic layout L with LoaderCheck.wf_basic L — non-empty duplicate-free triggers, duplicate-free outputs, "
+                                    "every key a code of the regenerated key table, i32 delay/interval, absorbing keys among the trigger's modifiers; any length, any repeat incl. "
+                                    "Special with empty or multi-key chords, empty outputs — load (Serde.to_json L) = Ok L), C15_loaded_is_wf_basic (every layout the loader "
+                                    "returns, for any JSON value, satisfies wf_basic, so the guard covers everything the converter can produce from a file), "
+                                    "C15_saved_layout_reloads (load j = Ok L -> load (to_json L) = Ok L), C15_key_names (all 484 entries of the regenerated table: serde name and "
+                                    "variant name parse back to the code, serde writes that name, names distinct) by vm_compute. Serde.to_json is the hand-written model of "
+                                    "derive(Serialize), compared with the real serde_json::to_value on every accepted layout and on random basic layouts over all key codes; "
+                                    "the real reload is compared as well (clause C15.roundtrip)")),
 }
